@@ -114,9 +114,66 @@ def derived_pass(ctx):
             return
 
 
+def evolving_pass(ctx):
+    """the metamodel changes between deletions: an object of a subclass is deleted (so that whatever is remembered about
+    the class has been computed once), then a *supertype* gains a reference — plain, bidirectional or containment —, then
+    another object of the subclass, using that reference, is deleted"""
+    from pyecore import ecore as E
+    for k in range(18 if ctx.quick() else 200):
+        rng = common.sub_rng(ctx.seed, 'C07', 'evolving', k)
+        Base, Mid, Sub, T = E.EClass('Base'), E.EClass('Mid'), E.EClass('Sub'), E.EClass('T')
+        Mid.eSuperTypes.append(Base); Sub.eSuperTypes.append(Mid)
+        Base.eStructuralFeatures.append(E.EReference('first', T))
+        warm = Sub()
+        warm.first = T()
+        _ = warm.eContents
+        warm.delete()
+        kind = rng.choice(['plain', 'opposite', 'containment', 'many'])
+        where = rng.choice([Base, Mid])
+        if kind == 'plain':
+            where.eStructuralFeatures.append(E.EReference('late', T))
+        elif kind == 'many':
+            where.eStructuralFeatures.append(E.EReference('late', T, upper=-1))
+        elif kind == 'opposite':
+            late = E.EReference('late', T)
+            back = E.EReference('back', where, upper=-1, eOpposite=late)
+            where.eStructuralFeatures.append(late); T.eStructuralFeatures.append(back)
+        else:
+            where.eStructuralFeatures.append(E.EReference('late', T, upper=-1, containment=True))
+        x, t, outside = Sub(), T(), Sub()
+        if kind in ('many', 'containment'):
+            x.late.append(t)
+        else:
+            x.late = t
+        if kind == 'containment':
+            outside.first = t        # a reference from outside to the child that goes with x
+        ctx.evaluations += 1
+        ctx.count('evolving/' + kind)
+        ctx.nontriv(('evolving', k))
+        try:
+            x.delete()
+        except Exception as e:
+            ctx.violate({'clause': 'delete-raised', 'trigger': 'none', 'evolving': True}, f'delete-raised: {type(e).__name__}: {e}', {'evolving': k})
+            return
+        bad = []
+        held = list(x.late) if kind in ('many', 'containment') else ([x.late] if x.late is not None else [])
+        if held:
+            bad.append('the deleted object still holds its value in the reference its supertype gained')
+        if kind == 'opposite' and any(v is x for v in t.back):
+            bad.append('the other end still holds the deleted object')
+        if kind == 'containment' and (t.eContainer() is not None or outside.first is not None):
+            bad.append('the contained child was not deleted with it (container / outside reference remain)')
+        if bad:
+            ctx.violate({'clause': 'dangling', 'trigger': 'none', 'evolving': True},
+                        f'dangling: {where.name} gained a {kind} reference after an instance of Sub had been deleted; deleting another: ' + '; '.join(bad),
+                        {'evolving': k, 'kind': kind})
+            return
+
+
 def run(ctx):
     common.use_repo()
     derived_pass(ctx)
+    evolving_pass(ctx)
     from . import crossworld
     crossworld.deletion_pass(ctx)
     n = 150 if ctx.quick() else 2500
